@@ -1,6 +1,5 @@
 """C14 — coroutine Mutex: mutual exclusion and no lost wake-up (structural clauses; K20, K20n, all four options)."""
-from rules import lib_coro, lib_exec, lib_order
-from rules.c16 import EvWalker
+from rules import lib_core, lib_coro, lib_exec, lib_order
 from vlib import pathwalk
 
 SENDER = 'yaclib::detail::MutexImpl::_sender'
@@ -37,6 +36,10 @@ class MutexWalker(pathwalk.Walker):
         elif k in ('CXXMemberCallExpr', 'CallExpr') and 'cn' in n:
             cn = n['cn']
             last = cn.split('::')[-1]
+            if last in ('compare_exchange_weak', 'compare_exchange_strong') and len(n.get('args', [])) >= 2:
+                des = fn.sn(n['args'][1])
+                kind = 'enqueue' if des.get('v') is None else ('to-%d' % (0 if des['v'] == 0 else 1))
+                st.events.append(('cas-call', kind, loc))
             if cn == 'yaclib::IExecutor::Submit':
                 st.events.append(('submit', fn.text(n['args'][0]), loc))
             elif last == 'Curr':
@@ -119,6 +122,17 @@ def run(ctx):
                                 ctx.report(rt, key, f.where, 'the waiter is published without its next link having '
                                            'been written in this iteration (the list is corrupted)')
                                 break
+            if f.n == 'TryLockAwait':
+                rets = [x for x in f.own_nodes() if x['k'] == 'ReturnStmt' and x.get('ch')]
+                ok = False
+                for r in rets:
+                    for d in f.descendants(r['ch'][0]):
+                        x = f.nodes[d]
+                        if x.get('cn', '').endswith('::compare_exchange_strong') and f.sn(x['args'][1]).get('v') == 0:
+                            ok = True
+                if not ok:
+                    ctx.report(rt, 'R-TRYLOCK MutexImpl::TryLockAwait', f.where, 'TryLock must report the outcome of a '
+                               'strong CAS from the not-locked value to locked-without-waiters')
             # who touches _receiver
             touches = [n for n in f.own_nodes() if n['k'] == 'MemberExpr' and n['dn'] == RECEIVER]
             if touches:
@@ -134,13 +148,13 @@ def run(ctx):
                 for st, rv in res:
                     ev = st.events
                     for i, e in enumerate(ev):
-                        if e[0] == 'cas' and e[1] == 'to-1':
+                        if e[0] == 'cas-call' and e[1] == 'to-1':
                             if not any(x == ('receiver-null', True) for x in ev[:i]):
                                 ctx.report(rr, key, f.where, 'the lock is released to "not locked" although the holder '
                                            'still has private waiters in _receiver (they are never resumed)')
                                 break
                     if rv is not None and rv[0] == 'c' and rv[1] and not any(
-                            e == ('cas', 'to-1', True) for e in ev):
+                            e[0] == 'cas-call' and e[1] == 'to-1' for e in ev):
                         ctx.report(rr, key, f.where, 'TryUnlockAwait reports "unlocked" without a successful release '
                                    'CAS')
                         break
@@ -189,7 +203,7 @@ def run(ctx):
         for f in fb.fn.values():
             if f.qn == 'yaclib::detail::Guard::~Guard' and f.cfg is not None:
                 key = 'R-GUARD Guard::~Guard'
-                res = EvWalker(fb).run(f)
+                res = lib_core.CoreWalker(fb).run(f)
                 ctx.instance(rg, key + ' :: ' + f.cls[:80], None)
                 for st, _ in res:
                     owns = [e for e in st.events if e[0] == 'valid']
